@@ -26,7 +26,7 @@ TITLE = "rearranging dimensions preserves coordinates"
 RULE = ("product of (arrays 0-4D, axes of pairwise different kind and length, variants with singleton dimensions) x "
         "(every permutation by name/position/list/varargs, T, every ordered axis pair for swapaxes, every (axis,start) for rollaxis, "
         "newaxis at every position with/without values, squeeze all/name/position, repeat, broadcast to every target axis list "
-        "with 0-2 foreign axes in every order, broadcast_arrays on pairs) and all depth-2 compositions of the shape-changing ops; "
+        "with 0-2 foreign axes (several labels, ONE label, none) in every order, broadcast_arrays on pairs incl. arrays with an empty axis) and all depth-2 compositions of the shape-changing ops; "
         "non-trivial = the operation is not the identity arrangement")
 ASSUMPTIONS = ["reference ops on (dims, labels, cells) in mc/props/c10.py; coordinate-map comparison (mc/ref.py)"]
 NAMES = ["x", "y", "z", "t"]
